@@ -20,6 +20,13 @@ import TraitsVerif.Model.FastValidate
 namespace TraitsVerif.Model.Val
 open TraitsVerif TraitsVerif.Py.Value
 
+/-- One entry of the `shape` option of Array: `None`, `n`, `(lo, hi)` / `(lo, None)`. -/
+inductive DimSpec where
+  | any
+  | exact (n : Nat)
+  | range (lo : Nat) (hi : Option Nat)
+  deriving DecidableEq, Repr, Inhabited
+
 inductive TraitType where
   | any                                                   -- Any: no validator
   | int | float | complex | str | bytes | bool            -- Int … Bool (fast classes)
@@ -43,6 +50,7 @@ inductive TraitType where
   | string (minlen : Nat) (maxlen : Option Nat) (regex : Option Nat)   -- String(minlen, maxlen, regex)
   | prefixList (vals : List String)                       -- PrefixList([...])
   | prefixMap (keys : List String) (vals : List Val)      -- PrefixMap({...})
+  | array (dtype : Option Nat) (shape : Option (List DimSpec)) (casting : Nat)  -- Array(dtype, shape, casting=)
   -- legacy handlers (what Trait(...) builds)
   | coerceH (ty : Ty)                                     -- TraitCoerceType(T)
   | castH (ty : Ty)                                       -- TraitCastType(T)
@@ -115,6 +123,42 @@ def completeValue (keys : List String) (v : Val) (s : String) : Res :=
     match keys.filter (fun k => s.isPrefixOf k) with
     | [k] => .ok (Val.ofStr k)
     | _ => .traitError                                     -- ValueError → self.error
+
+/-- The shape test of `AbstractArray.validate` (trait_numeric.py:141-158). -/
+def dimOk : DimSpec → Nat → Bool
+  | .any, _ => true
+  | .exact n, d => d == n
+  | .range lo hi, d => decide (lo ≤ d) && (match hi with | none => true | some h => decide (d ≤ h))
+
+def shapeOk : List DimSpec → List Nat → Bool
+  | [], [] => true
+  | s :: ss, d :: ds => dimOk s d && shapeOk ss ds
+  | _, _ => false
+
+/-- `AbstractArray.validate` (trait_numeric.py:122-162): sequences go through
+`asarray`, arrays of another dtype through `astype(dtype, casting=…)`, then the
+shape is compared; every exception ends in `self.error`.  `asarray` and the
+castability are parameters. -/
+def arrayValidate (E : Env) (dtype : Option Nat) (shape : Option (List DimSpec)) (casting : Nat) (v : Val) : Res :=
+  let arr : Option (Val × Nat × List Nat) :=
+    match v with
+    | .atom (.ndarray d s) =>
+      match dtype with
+      | none => some (v, d, s)
+      | some t =>
+        if d == t then some (v, d, s)
+        else if E.canCast d t casting then some (.atom (.ndarray t s), t, s) else none
+    | .tuple _ _ | .list _ =>
+      match E.asarray v dtype with
+      | .ok (d, s) => some (.atom (.ndarray d s), d, s)
+      | .error _ => none
+    | _ => none
+  match arr with
+  | none => .traitError
+  | some (w, _, s) =>
+    match shape with
+    | none => .ok w
+    | some sh => if shapeOk sh s then .ok w else .traitError
 
 /-- The validator variant `String._init` selects (trait_types.py:713-725). -/
 inductive StrVariant where
@@ -358,6 +402,8 @@ def pyValidate : TraitType → Val → Res
     match strOf v with
     | some s => completeValue keys v s
     | none => .traitError
+  -- AbstractArray.validate, trait_numeric.py:122-162
+  | .array dt sh cast, v => arrayValidate E dt sh cast v
   -- TraitCoerceType.validate, trait_handlers.py:127-142
   | .coerceH ty, v => pyCoerceValidate E ty (coerceRest ty) v
   -- TraitCastType.validate, 229-238
@@ -464,6 +510,7 @@ def descOf : TraitType → Option Desc
   | .string .. => none
   | .prefixList _ => none
   | .prefixMap .. => none
+  | .array .. => none
   | .coerceH ty => some (.coerce ty (coerceRest ty))       -- trait_handlers.py:118-125
   | .castH ty => some (.cast ty)                           -- 227
   | .instanceH cls an =>                                   -- 310-316
